@@ -90,7 +90,7 @@ def call_value(ex, st, f, pos, named, stars, sargs, node, ov=None):
             if k is not None: return apply_contract(ex, st, k, None, pos, named, stars, sargs, node)
         raise Unsupported(f'no contract for call of {f.obj!r} (line {node.lineno} in {ex.spec.qual})')
     if isinstance(f, PClosure):
-        k = C.CONTRACTS.get(f.qual.split(':')[-1]) or C.CONTRACTS.get(f.qual)
+        k = C.CONTRACTS.get(f.qual.split(':')[-1]) or C.CONTRACTS.get(f.qual) or next((c for c in C.CONTRACTS.values() if c.qual == f.qual), None)
         if k is None: raise Unsupported(f'no contract for nested function {f.qual}')
         return apply_contract(ex, st, k, None, pos, named, stars, sargs, node)
     if isinstance(f, PBound):
@@ -482,7 +482,7 @@ def _len(ex, st, pos, named, node):
                 for s2, s in ex.fork(s1, Val.is_S(v.z), f'L{node.lineno}.len_str'):
                     outs.append((s2, ZV('int', Length(Val.s(v.z)))) if s else (s2, ex.raise_(s2, 'TypeError', where='builtin')))
         return outs
-    h = ex.spec.calls.get('len')
+    h = ex.spec.calls.get('builtin:len')
     if h: return h(ex, st, v, node)
     if isinstance(v, (PSet, PMap, PDict)):
         n = fresh('card', IntSort()); st = st.copy(); st.assume(n >= 0, (n > 0) == truth(v, st))
